@@ -236,3 +236,14 @@ Definition payout_with_gt (miner : N) (prev : option prev_info) : payout :=
 
 Definition slips_total (l : list (N * N * N)) : N :=
   fold_right (fun s acc => snd (fst s) + acc) 0 l.
+
+(* ---------------------------------------------------------------- *)
+(* golden-ticket check of Block::validate:
+     let gt = GoldenTicket::create(previous_block.hash, golden_ticket.random, golden_ticket.public_key);
+     if !gt.validate(previous_block.difficulty) { return false; }
+   with validate = solution.leading_zeros() >= difficulty as u32.
+   [solution_lz] = leading zeros of hash(previous_block.hash ++ random ++ public_key),
+   computed by the harness with the real hash against the real PARENT hash — the
+   ticket's own [target] field plays no role. *)
+Definition golden_ticket_solves (solution_lz difficulty : N) : bool :=
+  difficulty mod 4294967296 <=? solution_lz.
